@@ -8,8 +8,57 @@ use h3::proto::varint::VarInt;
 use h3::webtransport::SessionId;
 use std::convert::TryFrom;
 
+/// a `Buf` made of several chunks (non-contiguous), as the decoders see it behind `BufList`/`Chain`
+struct Chunks(std::collections::VecDeque<bytes::Bytes>);
+
+impl Buf for Chunks {
+    fn remaining(&self) -> usize {
+        self.0.iter().map(|b| b.len()).sum()
+    }
+    fn chunk(&self) -> &[u8] {
+        self.0.front().map(|b| &b[..]).unwrap_or(&[])
+    }
+    fn advance(&mut self, mut cnt: usize) {
+        while cnt > 0 {
+            let front = self.0.front_mut().expect("advance past the end");
+            if cnt < front.len() {
+                front.advance(cnt);
+                return;
+            }
+            cnt -= front.len();
+            self.0.pop_front();
+        }
+        while self.0.front().map(|b| b.is_empty()).unwrap_or(false) {
+            self.0.pop_front();
+        }
+    }
+}
+
 pub fn handle(w: &[&str]) -> String {
     match w {
+        // decode from a multi-chunk buffer: pieces separated by `,` (none empty)
+        ["varint", "decm", h] => {
+            let pieces: Option<Vec<Vec<u8>>> = h.split(',').map(parse_hex).collect();
+            let Some(pieces) = pieces else { return "bad-op".into() };
+            if pieces.iter().any(|p| p.is_empty()) {
+                return "bad-op".into();
+            }
+            guarded(|| {
+                let mut buf = Chunks(pieces.into_iter().map(bytes::Bytes::from).collect());
+                match VarInt::decode(&mut buf) {
+                    Ok(v) => {
+                        let mut rest = Vec::new();
+                        while buf.has_remaining() {
+                            let c = buf.chunk().to_vec();
+                            rest.extend_from_slice(&c);
+                            buf.advance(c.len());
+                        }
+                        format!("ok {} {}", v.into_inner(), to_hex(&rest))
+                    }
+                    Err(e) => format!("end {}", e.0),
+                }
+            })
+        }
         ["varint", "dec", h] => {
             let Some(bs) = parse_hex(h) else { return "bad-op".into() };
             guarded(|| {
